@@ -356,6 +356,75 @@ def sx_signature(which, prog, events):
     return f"{which}/SX/{tag}/not-linearizable"
 
 
+# ------------------------------------------------------------------------------------------
+# TX: the TLA+ statement of the specification, enumerated by TLC, bound to the Python spec and replayed on the real code
+def tlc_graph(names, nthreads, depth, g0):
+    """Run TLC on models/BackendStack.tla; return (set of states, set of (s, s') pairs) in the Python spec's encoding."""
+    import ast
+    import shutil
+    import subprocess
+    import tempfile
+
+    root = os.path.dirname(os.path.dirname(os.path.dirname(os.path.abspath(__file__))))
+    tmp = tempfile.mkdtemp(prefix="c17_tlc_")
+    try:
+        shutil.copy(os.path.join(root, "models", "BackendStack.tla"), tmp)
+        q = lambda xs: "{" + ", ".join('"%s"' % x for x in xs) + "}"
+        with open(os.path.join(tmp, "BackendStack.cfg"), "w") as f:
+            f.write(f"CONSTANTS\n  Threads = {q(['t%d' % i for i in range(nthreads)])}\n  Backends = {q(names)}\n  MaxDepth = {depth}\n  G0 = \"{g0}\"\n"
+                    "INIT Init\nNEXT Next\nINVARIANT TypeOK\nPROPERTY LocalIsolation\nPROPERTY Restoration\nACTION_CONSTRAINT Dump\nCHECK_DEADLOCK FALSE\n")
+        r = subprocess.run(["tlc", "-workers", "1", "-noGenerateSpecTE", "-metadir", os.path.join(tmp, "meta"), "BackendStack.tla"],
+                           cwd=tmp, capture_output=True, text=True, timeout=1800)
+        out = r.stdout
+        if "Model checking completed. No error has been found." not in out:
+            raise HarnessError("TLC did not complete cleanly on models/BackendStack.tla:\n" + out[-1500:] + r.stderr[-500:])
+
+        def conv(js):
+            d = json.loads(js)
+            none = lambda x: None if x == "none" else x
+            sel = tuple(none(d["sel"]["t%d" % i]) for i in range(nthreads))
+            stk = tuple(tuple((e["prev"], bool(e["wasNone"]), e["fl"], none(e["g0"])) for e in d["stk"]["t%d" % i]) for i in range(nthreads))
+            return (d["G"], sel, stk)
+
+        states, pairs = set(), set()
+        for line in out.splitlines():
+            if line.startswith('<<"EDGE"'):
+                _, a, b = ast.literal_eval("(" + line[2:-2] + ")")
+                a, b = conv(a), conv(b)
+                states.add(a)
+                states.add(b)
+                pairs.add((a, b))
+        import re
+
+        m = re.search(r"(\d+) states generated, (\d+) distinct states found", out)
+        return states, pairs, (int(m.group(1)), int(m.group(2))) if m else (0, 0)
+    finally:
+        shutil.rmtree(tmp, ignore_errors=True)
+
+
+def python_spec_graph(names, nthreads, depth, g0):
+    """BFS of the Python specification: states, labelled edges, BFS-tree event path of every state."""
+    evs = bk.alphabet(names)
+    init = bk.spec_init(nthreads, g0)
+    path = {init: []}
+    order = [init]
+    edges = []
+    i = 0
+    while i < len(order):
+        s = order[i]
+        i += 1
+        for t in range(nthreads):
+            for ev in evs:
+                if not bk.spec_enabled(s, t, ev, depth):
+                    continue
+                for s2 in sorted(bk.spec_step(s, t, ev), key=repr):
+                    edges.append((s, (t, ev), s2))
+                    if s2 not in path:
+                        path[s2] = path[s] + [(t, ev)]
+                        order.append(s2)
+    return order, edges, path
+
+
 class C17(Check):
     pid = "C17"
     level = "model_checking"
@@ -444,6 +513,70 @@ class C17(Check):
     def parent_run(self, tier, seed, pool):
         for (which, nthreads, nb, depth, maxlevel) in self.configs(tier):
             yield self.hx_bfs(which, nthreads, nb, depth, pool, tier, maxlevel)
+        for (which, nthreads, nb, depth) in ([("backend", 2, 2, 1), ("tenalg", 2, 2, 1)] if tier == "quick" else
+                                             [("backend", 2, 2, 1), ("tenalg", 2, 2, 1), ("backend", 2, 2, 2), ("backend", 3, 2, 1), ("tenalg", 3, 2, 1)]):
+            yield self.tx_replay(which, nthreads, nb, depth, pool)
+
+    def tx_replay(self, which, nthreads, nb, depth, pool):
+        """TLC enumerates the TLA+ spec; its graph must equal the Python spec's graph; then every labelled spec edge (BFS-tree path
+        of its source + the event) is replayed on the real manager and judged by trace inclusion."""
+        mgr = get_mgr(which, nb)
+        names = mgr.names
+        g0 = names[0]
+        ctx = Ctx({"part": "TX", "manager": which, "threads": nthreads, "backends": nb, "depth": depth})
+        t_states, t_pairs, (generated, distinct) = tlc_graph(names, nthreads, depth, g0)
+        order, edges, path = python_spec_graph(names, nthreads, depth, g0)
+        p_states = set(order)
+        p_pairs = {(a, b) for a, _, b in edges}
+        if t_states != p_states or t_pairs != p_pairs or distinct != len(p_states):
+            raise HarnessError(f"TX {which}: TLA+ spec graph and Python spec graph differ: states {len(t_states)} vs {len(p_states)} "
+                               f"(only TLC: {list(t_states - p_states)[:2]}, only Python: {list(p_states - t_states)[:2]}), "
+                               f"transition pairs {len(t_pairs)} vs {len(p_pairs)}")
+        # distinct tree paths (several spec states can share one event path: the spec is nondeterministic)
+        tree_paths = {}
+        for s in order:
+            tree_paths.setdefault(tuple(path[s]), []).append(s)
+        children = {}
+        for hp in tree_paths:
+            if hp:
+                children.setdefault(hp[:-1], []).append(hp)
+        S_of = {(): (bk.spec_init(nthreads, g0),)}
+        d_of = {(): (0,) * nthreads}
+        frontier = [()]
+        while frontier:
+            jobs = [(which, nthreads, nb, depth, g0, [(t, tuple(ev)) for t, ev in hp], S_of[hp], d_of[hp]) for hp in frontier]
+            nxt = []
+            for hp, outs in zip(frontier, pool.imap(hx_expand, jobs, chunksize=max(1, len(jobs) // 64))):
+                res_by_ev = {}
+                for (t, ev, key, S2, d2, viol, res) in outs:
+                    ctx.traces += 1
+                    ctx.transitions += 1
+                    ctx.evaluations += 1
+                    h2 = [(a, list(b)) for a, b in hp] + [(t, list(ev))]
+                    for sig, detail in viol:
+                        ctx.violation(sig, detail + f" | TX replay of spec path (thread, op): {h2} from default {g0}",
+                                      case={"part": "HX", "manager": which, "threads": nthreads, "backends": nb, "g0": g0, "history": h2})
+                    res_by_ev[(t, ev)] = (S2, d2)
+                for ch in children.get(hp, []):
+                    S2, d2 = res_by_ev.get((ch[-1][0], tuple(ch[-1][1])), ((), None))
+                    if S2:
+                        S_of[ch] = S2
+                        d_of[ch] = d2
+                        nxt.append(ch)
+            frontier = nxt
+        ctx.states = len(p_states)
+        tag = f"TX:{which}:{nthreads}thr:{nb}bk:depth{depth}"
+        ctx.counters[f"{tag}:tlc_states_generated"] = generated
+        ctx.counters[f"{tag}:tlc_distinct_states"] = distinct
+        ctx.counters[f"{tag}:spec_transition_pairs"] = len(p_pairs)
+        ctx.counters[f"{tag}:labelled_spec_edges"] = len(edges)
+        ctx.counters[f"{tag}:tree_paths_replayed"] = len(S_of)
+        ctx.nontrivial.add(canon_key(("TX", which, nthreads, nb, depth)))
+        ctx.sample({"part": "TX", "manager": which, "tlc_distinct_states": distinct, "spec_transition_pairs": len(p_pairs),
+                    "example_tree_path": [list(x) for x in max(tree_paths, key=len)]})
+        r = ctx.result()
+        r["group"] = ctx.group
+        return r
 
     def hx_bfs(self, which, nthreads, nb, depth, pool, tier, maxlevel=None):
         mgr = get_mgr(which, nb)
@@ -511,9 +644,11 @@ class C17(Check):
                       "configured length (or to the fixpoint of the reachable state set where *:fixpoint_reached = 1), state-deduplicated; "
                       "SX = all schedules of each program with at most the stated number of pre-emptions at line (or bytecode) granularity",
             "hx_fixpoints": fix,
-            "states_note": "states = HX canonical states + SX complete executions (each SX execution ends in one terminal state); "
-                           "transitions = HX events executed on the real managers + SX scheduling steps; "
-                           "traces_validated_against_impl = HX histories + SX schedules executed on the real code and judged against the specification",
+            "states_note": "states = HX canonical states + SX complete executions (each SX execution ends in one terminal state) + TX specification states (TLC); "
+                           "transitions = HX events executed on the real managers + SX scheduling steps + TX spec edges replayed; "
+                           "traces_validated_against_impl = HX histories + SX schedules + TX spec paths executed on the real code and judged against the specification",
+            "tx": "models/BackendStack.tla checked by TLC (TypeOK, LocalIsolation, Restoration); its state graph equals the Python spec graph (states and transition pairs); "
+                  "every labelled spec edge is replayed (BFS-tree path of the source + event) on the real manager",
         }
 
     # replay of a stored counterexample (a history): re-run and re-judge every step
